@@ -58,6 +58,10 @@ def jobs(tier):
     return grouped
 
 
+# lemmas over the contracts, checked by Lean 4 + Mathlib on every run (lean/Lemmas.lean, rverif/lemmas.py)
+LEMMAS = ["weak_duality", "weak_duality_eq", "soc_pairing", "expcone_pairing", "expcone_pairing_boundary_right", "expcone_pairing_boundary_left"]
+
+
 def SOURCES():
     return {"rsome.lp:Model.do_math": source_info(lp.Model.do_math),
             "rsome.socp:Model.do_math": source_info(socp.Model.do_math),
